@@ -551,13 +551,13 @@ theorem getDataPure_rel {img : Bytes} {k : Nat} {f : Bool} {bp bf : SecBuf} (h :
         have hnnf : isNullOrNobitsTy bf.stype = false := hs.stype ▸ hnn
         -- recorded stream sizes
         have hssp : bp.streamSize = BitVec.ofNat 64 (img.take k).length := by
-          rcases hp.ss with ⟨-, h1⟩ | ⟨-, h2⟩
+          rcases hp.ss with h1 | ⟨-, h2, -⟩
           · exact h1
-          · have := (h2 rfl).1; rw [hnn] at this; exact absurd this (by decide)
+          · rw [hnn] at h2; exact absurd h2 (by decide)
         have hssf : bf.streamSize = BitVec.ofNat 64 img.length := by
-          rcases hf.ss with ⟨-, h1⟩ | ⟨-, h2⟩
+          rcases hf.ss with h1 | ⟨-, h2, -⟩
           · exact h1
-          · have := (h2 rfl).1; rw [hnnf] at this; exact absurd this (by decide)
+          · rw [hnnf] at h2; exact absurd h2 (by decide)
         -- the prefix run refuses, or both load the same bytes
         by_cases hok : (loadDataPure (img.take k) bp).2 = true
         · -- the prefix run loaded: unfold both
@@ -932,13 +932,13 @@ theorem segLoadDataPure_rel {img : Bytes} {k : Nat} {gp gf : Seg} (hs : SegField
   · simp [h4] at hok
   have hle := g_size_gt_false (by simpa using h2) (g_off_gt_false (by simpa using h1))
   have hssp : gp.streamSize = BitVec.ofNat 64 (img.take k).length := by
-    rcases hp.ss with ⟨-, hss⟩ | ⟨-, hn⟩
+    rcases hp.ss with hss | ⟨-, hn, -⟩
     · exact hss
-    · exact absurd (hn rfl).1 h0
+    · exact absurd hn h0
   have hssf : gf.streamSize = BitVec.ofNat 64 img.length := by
-    rcases hf.ss with ⟨-, hss⟩ | ⟨-, hn⟩
+    rcases hf.ss with hss | ⟨-, hn, -⟩
     · exact hss
-    · have := (hn rfl).1; rw [← hs.stype, ← hs.filesz] at this; exact absurd this h0
+    · rw [← hs.stype, ← hs.filesz] at hn; exact absurd hn h0
   rw [hssp, toNat_ofNat_len (by omega)] at hle
   have hle' : gp.offset.toNat + gp.filesz.toNat ≤ gf.streamSize.toNat := by
     rw [hssf, toNat_ofNat_len (by omega)]; omega
